@@ -8,6 +8,8 @@ package main
 // real stack of common_fixture.go (SQLite file + SQL repositories + service.NewServices).
 
 import (
+	"context"
+	stdsql "database/sql"
 	"fmt"
 	"net/http/httptest"
 	"os"
@@ -200,4 +202,44 @@ func adminTokenVariants() []string {
 		rpt("LongAdminToken0", 100),
 		"Adm-1n_t0k.en~x!y*z(w)+v,u=s@q",
 	}
+}
+
+// holdPool makes every SQL statement of the service slow for a moment, BELOW the repository layer: it takes all
+// n connections of the pool (the pool is capped at n), so that each statement waits inside database/sql until
+// release() is called.  waiters() = number of statements that started waiting since the hold began.
+func holdPool(s *Stack, n int) (release func(), waiters func() int64, err error) {
+	s.DB.SetMaxOpenConns(n)
+	s.DB.SetMaxIdleConns(n)
+	ctx := context.Background()
+	var conns []*stdsql.Conn
+	for i := 0; i < n; i++ {
+		c, err := s.DB.Conn(ctx)
+		if err != nil {
+			for _, c := range conns {
+				_ = c.Close()
+			}
+			return nil, nil, err
+		}
+		conns = append(conns, c)
+	}
+	base := s.DB.Stats().WaitCount
+	return func() {
+			for _, c := range conns {
+				_ = c.Close()
+			}
+		}, func() int64 {
+			return s.DB.Stats().WaitCount - base
+		}, nil
+}
+
+// waitFor polls cond (every 200 us) for at most d.
+func waitFor(d time.Duration, cond func() bool) bool {
+	end := time.Now().Add(d)
+	for time.Now().Before(end) {
+		if cond() {
+			return true
+		}
+		time.Sleep(200 * time.Microsecond)
+	}
+	return cond()
 }
